@@ -119,6 +119,12 @@ def c20_entropy(tier):
                 kind = "torch seed"
             elif fn in ("torch.rand", "torch.randn", "torch.randperm", "torch.randn_like", "torch.rand_like"):
                 kind = "global torch generator"
+            elif fn == "hash" and node.args and not (isinstance(node.args[0], ast.Constant) and isinstance(node.args[0].value, (int, float))):
+                # hash() of anything that contains a str / bytes is salted per interpreter process (PYTHONHASHSEED): a value derived from it differs between runs
+                kind = "process-dependent value (salted hash)"
+            elif fn == "id" or fn in ("time.time", "time.time_ns", "time.perf_counter", "time.monotonic", "os.urandom", "os.getpid", "uuid.uuid4", "uuid.uuid1", "secrets.randbits",
+                                      "secrets.token_bytes", "datetime.now", "datetime.datetime.now") or fn.startswith("random.") and fn.split(".")[1] in ("random", "randint", "seed", "getrandbits", "choice", "shuffle", "uniform"):
+                kind = "process-dependent value"
             if kind is None:
                 continue
             n_sites += 1
@@ -166,6 +172,16 @@ def c20_entropy(tier):
             if kind == "global torch generator":
                 ok = True
                 why = "draws from the global torch generator seeded by BaseTorchFlow.__init__ (assumption: nothing else reseeds it in between)"
+            if kind.startswith("process-dependent value"):
+                # allowed only where the value cannot reach a result: as (part of) a log / warning message
+                cur, in_log = node, False
+                while cur in parents:
+                    cur = parents[cur]
+                    if isinstance(cur, ast.Call) and ast.unparse(cur.func).split(".")[0] in ("logger", "logging", "warnings"):
+                        in_log = True
+                        break
+                ok = in_log
+                why = "only used in a log message" if in_log else "a value that differs between interpreter processes flows into the computation (seeds, keys, ordering): same explicit random sources no longer give the same run"
             out.append(ob(f"entropy-site:C20:{mod}: `{snippet}` [{kind}] is {why.split(':')[0]}", bool(ok), f"{mod}", why))
     out.append(ob(f"entropy-site:C20:{n_sites} entropy sites enumerated from the ast (expected at least 10)", n_sites >= 10, "package"))
     # routing table from the real signatures: every SMC sampler class must offer a route for the resampling generator
